@@ -286,7 +286,7 @@ func paramsFromHeaders(endpoint *expr.HTTPEndpointExpr) []*Parameter {
 	var params []*Parameter
 
 	expr.WalkMappedAttr(endpoint.Headers, func(name, elem string, att *expr.AttributeExpr) error { // nolint: errcheck
-		required := endpoint.Headers.IsRequiredNoDefault(name)
+		required := endpoint.Headers.IsRequired(name)
 		params = append(params, paramFor(att, elem, "header", required))
 		return nil
 	})
